@@ -139,6 +139,25 @@ theorem resize_seg_outside (h t : Int) (m : Mod) (lo hi : Int)
         (lo + Loc.gmax 0 (-lo)) (hi + Loc.gmax 0 (-lo)) :=
   resize_seg_ext_den h t m lo hi hb h1
 
+/-- offsets outside a flat region of any number of segments (either orientation, any mix)
+extend its first / last segment outward: for every modifier with `lo ≤ hi` (no other bound) the
+resized region reads the residues `lo + a .. hi + a - 1` of the region whose first segment's head
+is moved outward by `a = max 0 (-lo)` and whose last segment's tail is moved outward by
+`b = max 0 (hi - len)`; inside (`a = b = 0`) this is `resize_den` again -/
+theorem resize_flat_outside (rs : List Reg) (hflat : rs.all isSeg = true) (hne : rs ≠ []) (m : Mod)
+    (lo hi : Int) (hb : bounds m (lenList rs) = (lo, hi)) (h1 : lo ≤ hi) :
+    den (resize (many rs) m) =
+      sliceDen (denList (extLast (Loc.gmax 0 (hi - lenList rs)) (extFirst (Loc.gmax 0 (-lo)) rs)))
+        (lo + Loc.gmax 0 (-lo)) (hi + Loc.gmax 0 (-lo)) :=
+  resizeFlat_outside rs hflat hne m lo hi hb h1
+
+/-- non-vacuity of `resize_flat_outside`: `^-2..$+3` on a forward and a backward segment: two
+bases before the first segment, three bases beyond the 3' end of the second -/
+example : den (resize (many [seg 10 12, seg 20 17]) (.headTail (-2) 3)) =
+    [(8, false), (9, false), (10, false), (11, false),
+     (19, true), (18, true), (17, true), (16, true), (15, true), (14, true)] ∧
+    bounds (.headTail (-2) 3) (lenList [seg 10 12, seg 20 17]) = (-2, 8) := by decide
+
 /-- non-vacuity of `resize_den`: a three-segment region and a modifier spanning all three -/
 example : nonvoid (many [seg 0 5, seg 10 12, seg 20 30]) = true ∧
     bounds (.headHead 4 9) (len (many [seg 0 5, seg 10 12, seg 20 30])) = (4, 9) ∧
@@ -170,6 +189,14 @@ depend on which strand of the record the coordinates are written on. -/
 theorem resize_mirror (L : Int) (r : Reg) (m : Mod) (hp : proper r = true) :
     resize (mirror L r) m = mirror L (resize r m) :=
   mirrorLaw_of_proper L r hp m
+
+/-- `mirror L` is what it claims to be — the change of coordinates to the reverse-complemented
+record: a proper region and its mirror image read, position by position, mirrored residues
+(`x ↦ L - 1 - x`) on the opposite strand, in the same order.  Together with `resize_mirror`:
+a modifier selects the same residues of a feature whichever strand the record is written on. -/
+theorem mirror_den (L : Int) (r : Reg) (hp : proper r = true) :
+    den (mirror L r) = (den r).map (mirrorPos L) :=
+  Gts.den_mirror L r hp
 
 /-- the guard "every segment non-empty" is needed (an empty segment is read as forward on both
 records): `Head(2)` on the empty segment `(5, 5)`, `L = 10` -/
@@ -286,15 +313,44 @@ theorem locator_range (selOk : Bytes → Bool) (filt : Bytes → Feature → Boo
     exact ⟨natDigits_noAt a, by decide, by decide, natDigits_noAt b⟩
   exact (locator_location selOk filt seq _ _ hat hm (tryLocation_range a b ha hfa hb hfb)).2
 
-/-- bare selector ↦ the matching features' regions, in table order -/
-theorem locator_selector (selOk : Bytes → Bool) (filt : Bytes → Feature → Bool) (seq : Seq) (s : Bytes)
-    (hs : (64 : UInt8) ∉ s) (hm : asModifier s = .error .fail) (hl : tryLocation s = .error .fail)
-    (hok : selOk s = true) :
+/-- FULL STATEMENT (false today, known finding K8A): "a string without `@` that is not a modifier
+and whose selector compiles is read as that selector".  Refuted by the INSDC feature key `5'UTR`
+(bytes 53 39 85 84 82): `tryLocation` is not wrapped in `pars.Exact`, so it accepts the numeric
+prefix `5` and ignores the rest; the string is read as the point 5 and `gts extract "5'UTR"`
+yields base 5 instead of the 5'UTR features (same for `3'UTR`, and `3..5xyz` is the range 3..5). -/
+theorem locator_selector_full_refuted :
+    ¬ ∀ (selOk : Bytes → Bool) (s : Bytes), (64 : UInt8) ∉ s → asModifier s = .error .fail →
+        selOk s = true → asLocator selOk s = .selector s := by
+  intro H
+  have h := H (fun _ => true) [53, 39, 85, 84, 82] (by decide)
+    (asModifier_err_of_first 53 _ (by decide) (by decide)) rfl
+  have h2 : (match asLocator (fun _ => true) [53, 39, 85, 84, 82] with
+      | .bareLocation (.point 4) => true | _ => false) = true := by decide
+  rw [h] at h2
+  exact absurd h2 (by decide)
+
+/-- the prefix behaviour of `tryLocation` itself: `3..5xyz` is accepted as the range `3..5` -/
+example : (match tryLocation [51, 46, 46, 53, 120, 121, 122] with
+    | .ok (.ranged 2 5 false false) => true | _ => false) = true := by decide
+
+/-- bare selector ↦ the matching features' regions, in table order — with the explicit guard that
+excludes exactly K8A: no prefix of the string parses as a point / range / complement location
+(`tryLocation s` fails).  Every selector that starts with a letter, `/` or any byte other than a
+digit, `<` and `c` satisfies the guard trivially; see `locator_selector_full_refuted` for what
+happens without it. -/
+theorem locator_selector_partial (selOk : Bytes → Bool) (filt : Bytes → Feature → Bool) (seq : Seq)
+    (s : Bytes) (hs : (64 : UInt8) ∉ s) (hm : asModifier s = .error .fail)
+    (hl : tryLocation s = .error .fail) (hok : selOk s = true) :
     asLocator selOk s = .selector s ∧
     (asLocator selOk s).apply filt seq = (seq.feats.filter (filt s)).map fun f => f.loc.region := by
   have h : asLocator selOk s = .selector s := by
     rw [locator_precedence selOk s hs]; simp [asLocatorBare, hm, hl, hok]
   exact ⟨h, by rw [h]; rfl⟩
+
+/-- non-vacuity of the guard: the selector `gene` (bytes 103 101 110 101) -/
+example : (64 : UInt8) ∉ [103, 101, 110, 101] ∧
+    (match asModifier [103, 101, 110, 101] with | .error .fail => true | _ => false) = true ∧
+    (match tryLocation [103, 101, 110, 101] with | .error .fail => true | _ => false) = true := by decide
 
 /-- `X@M`: the first `@` splits the specifier from the modifier; the specifier is read by the
 bare rules -/
